@@ -212,7 +212,7 @@ def _collect(shard, seed, n):
 
 
 def main(ctx):
-    col = common.run_shards(_collect, 8 if ctx.quick else 16, ctx.seed, n=60 if ctx.quick else 1500)
+    col = common.run_shards(_collect, 8 if ctx.quick else 16, ctx.seed, n=200 if ctx.quick else 4000)
     for path, rec in common.load_replays(PID):
         col.record(rec["case"], run_case(rec["case"]), nontrivial=True, classes=["replay"])
     ctx.required_classes = ["shared-command-code", "request-on-shared-code", "unregistered", "outcome=none", "outcome=raise", "outcome=str",
